@@ -251,3 +251,33 @@ def rule_json_sibling(ctx):
                             'dropped instead of read as empty strings, shifting later indices' % (n, list(chain)[:8], list(ref)[:8]))
     r.check_floor()
     return r
+
+
+def rule_json_entries_alike(ctx):
+    """the three parsing entry points differ only in how the document reaches the JSON library"""
+    from .panics import loops
+    f = ctx.facts()
+    r = RuleResult('JSON-ENTRIES', 'from_json, from_slice and from_reader hand the whole document to the JSON library in one call each and '
+                                   'share the conversion into SourceMap: none of them reads, splits or loops over the input itself, so the '
+                                   'three agree on every document')
+    r.floor = 3
+    names = rule_json_names(ctx)
+    keys, reader, raw_adt, tf = names._chain
+    sm = anchors.adt_by_name(f, 'SourceMap')
+    entries = [b for b in f.body_list if b.promoted is None and b.d['kind'] != 'Closure' and b.d.get('impl_adt') in (raw_adt, sm['path'])
+               and b.name in ('from_json', 'from_slice', 'from_reader') and not b.d.get('impl_trait')]
+    if len(entries) < 3:
+        raise anchors.AnchorMissing('from_json / from_slice / from_reader: %d' % len(entries))
+    for b in entries:
+        ls = loops(b)
+        reads = [t for pt, t in b.calls() if (t.get('callee') or {}).get('name') in ('read', 'read_exact', 'read_to_end', 'read_to_string',
+                                                                                  'split_at', 'split_first', 'strip_prefix')]
+        ok = not ls and not reads
+        r.site('%s: no loop, no reading / splitting of its own' % b.path, b.span(), 'ok' if ok else 'violation')
+        if not ok:
+            r.violation('%s:own-input-handling' % b.path, b.span(), b.path,
+                        'this entry point handles the input itself (%s) instead of handing it to the JSON library whole: it can '
+                        'disagree with its siblings on documents they accept (a short read taken for the end of the input, a prefix '
+                        'stripped in one of them only)' % ('a loop' if ls else 'a call of `%s`' % reads[0]['callee']['name']))
+    r.check_floor()
+    return r
